@@ -374,7 +374,8 @@ class Checker:
             ck._soft, ck._soft_hard = covered_by, undecided
             try:
                 yield
-            except (_SoftAbort, AnalysisError) as e:
+            except (_SoftAbort, AnalysisError, AttributeError, IndexError, KeyError, TypeError, ValueError, StopIteration) as e:
+                # (a structural rule tripping over an unfamiliar syntax tree is the same situation: it does not apply)
                 if undecided:
                     # no fold decides this clause: an unrecognised shape is "cannot decide" (exit 2), never a violation
                     ck.obligations.append(Obligation(covered_by, Loc('', '', 0, covered_by), 'structural rule applies to the code it is about', 'undecided', str(e)[:300], None))
@@ -383,6 +384,14 @@ class Checker:
             finally:
                 ck._soft, ck._soft_hard = prev
         return scope()
+
+    def hard_on(self):
+        """Inside a soft scope: the obligations that follow are folds (semantic verdicts), not shape rules."""
+        self._suspended = (self._soft, self._soft_hard)
+        self._soft, self._soft_hard = None, False
+
+    def hard_off(self):
+        self._soft, self._soft_hard = getattr(self, '_suspended', (None, False))
 
     def ok(self, rule, mod, node, what, detail=None, construct=None):
         self.obligations.append(
@@ -471,6 +480,8 @@ def is_self_attr(node, attr=None, selfname='self'):
 
 def call_name(call: ast.Call) -> tp.Optional[str]:
     """Last component of the callee (`f`, `x.f`)."""
+    if not isinstance(call, ast.Call):
+        return None
     f = call.func
     if isinstance(f, ast.Name):
         return f.id
